@@ -840,7 +840,7 @@ namespace avel {
         scatter(ptr, v, indices, N);
     }
 
-    AVEL_FINL void scatter(std::uint32_t* ptr, vec16x32u indices, vec16x32u v) {
+    AVEL_FINL void scatter(std::uint32_t* ptr, vec16x32u v, vec16x32i indices) {
         #if defined(AVEL_AVX512F)
         _mm512_i32scatter_epi32(avel::bit_cast<int*>(ptr), decay(indices), decay(v), sizeof(std::uint32_t));
         #endif
@@ -859,7 +859,7 @@ namespace avel {
         scatter(ptr, v, indices, N);
     }
 
-    AVEL_FINL void scatter(std::int32_t* ptr, vec16x32i indices, vec16x32i v) {
+    AVEL_FINL void scatter(std::int32_t* ptr, vec16x32i v, vec16x32i indices) {
         #if defined(AVEL_AVX512F)
         _mm512_i32scatter_epi32(ptr, decay(indices), decay(v), sizeof(std::int32_t));
         #endif
